@@ -92,7 +92,7 @@ def same(a, b):
 
 
 def violation(kind, msg, doc, extra=None, key=None):
-    rep.violation("impl-vs-spec", f"{kind}: {msg}", {"kind": kind, "document": doc[:6000], **(extra or {})}, key=key)
+    rep.violation("impl-vs-spec", f"{kind}: {msg}", {"kind": kind, "document": doc[:200000], **(extra or {})}, key=key)
 
 
 def tabs_to_spaces(v):
@@ -185,6 +185,25 @@ for i in range(120 * SCALE):
         r = vlib.run_impl(request_from_xml, doc)
         if r[0] != "ok" or r[1] != base:
             violation("layout", f"request differs from the canonical rendering's ({r[2] if r[0] != 'ok' else 'unequal'})", doc)
+    # base64 content broken into lines (xsd:base64Binary allows it; mail and PEM tools do it): same octets, same verdict
+    if i % 3 == 0:
+        doc = ksrxml.render_tree(tree, R, wrap=True)
+        compare_with_et("wrapped-base64", doc)
+        r = vlib.run_impl(request_from_xml, doc)
+        if r[0] != "ok":
+            violation("wrapped-base64", f"a KSR whose base64 content is broken into lines is refused by the reader ({r[2]}); on one line it loads", doc)
+        else:
+            import base64 as _b64
+            got_k = sorted((k.key_identifier, _b64.b64decode(k.public_key)) for b in r[1].bundles for k in b.keys)
+            want_k = sorted((k["id"], k["pub"]) for b in req["bundles"] for k in b["keys"])
+            got_s = sorted((s_.key_identifier, _b64.b64decode(s_.signature_data)) for b in r[1].bundles for s_ in b.signatures)
+            want_s = sorted((s_["id"], s_["data"]) for b in req["bundles"] for s_ in b["sigs"])
+            if got_k != want_k or got_s != want_s:
+                violation("wrapped-base64", "key or signature octets read from line-broken base64 differ from the document's", doc)
+            else:
+                v = verdict(r[1], len(req["bundles"]))
+                if v != base_verdict:
+                    violation("wrapped-base64", f"validation verdict depends on line breaks inside base64 content: {base_verdict} on one line, {v} broken into lines", doc)
     # sibling permutations (bundles, keys, signatures, signers, policy children, attribute order)
     for variant in range(2):
         doc = ksrxml.render_tree(tree, R, permute=True)
